@@ -34,7 +34,7 @@ REAL = ['glue.core.data.Data mutation API', 'glue.core.component_id', 'glue.core
 STUB = ['recording HubListener', 'uuid and identity-hash streams']
 ASSUMPTIONS = ['messages are compared only when no delay window is open', 'sampling, not proof']
 PROBES = ['rejected_add_wrong_shape', 'rejected_reorder', 'rejected_update_wrong_shape', 'partial_update_then_reject', 'cascade_remove', 'coords_replaced',
-          'coords_removed', 'update_from_new_shape', 'update_from_label_mismatch', 'ops_in_delay_window', 'outside_collection', 'rename', 'update_id', 'joined_collection_later', 'identifier_of_rejected_add_reused', 'flipflop_reorder', 'flipflop_remove_add', 'flipflop_update_id', 'update_id_of_coordinate', 'rename_of_coordinate', 'duplicate_label', 'update_from_disjoint_labels', 'dataset_emptied']
+          'coords_removed', 'update_from_new_shape', 'update_from_label_mismatch', 'ops_in_delay_window', 'outside_collection', 'rename', 'update_id', 'joined_collection_later', 'identifier_of_rejected_add_reused', 'flipflop_reorder', 'flipflop_remove_add', 'flipflop_update_id', 'update_id_of_coordinate', 'rename_of_coordinate', 'duplicate_label', 'update_from_disjoint_labels', 'dataset_emptied', 'partial_update_then_foreign_identifier']
 
 WEIGHTS = {'add': 5, 'add_bad': 1.5, 'add_derived': 3, 'remove': 3, 'reorder': 2, 'reorder_bad': 1, 'rename': 2, 'update_id': 1.5, 'upd': 3, 'upd_bad': 1,
            'upd_partial': 1, 'upd_from': 2, 'coords': 2, 'label': 1, 'delay_open': 1, 'delay_close': 1.5, 'new': 0.7, 'append': 1, 'flipflop': 1.2}
@@ -185,6 +185,7 @@ def execute(case, res):
     from glue.core.component import Component
     from glue.core.component_id import ComponentID
     from glue.core.component_link import ComponentLink
+    from glue.core.exceptions import IncompatibleAttribute
     w = W.World(case['knobs'], res, None)
     sink = []
     rec = make_listener(w.hub, sink)
@@ -424,10 +425,16 @@ def execute(case, res):
                         c2 = cs[(op[2] + 1) % len(cs)]
                         mapping = {c2: W.values(op[3] + 1, d.shape), c: wrong}      # a valid entry first, then the invalid one
                         res.probe('partial_update_then_reject')
+                        if op[3] % 3 == 0:
+                            # ... or the invalid one is an identifier the dataset does not have
+                            foreign = ComponentID('foreign')
+                            keep.append(foreign)
+                            mapping = {c2: W.values(op[3] + 1, d.shape), foreign: W.values(op[3], d.shape)}
+                            res.probe('partial_update_then_foreign_identifier')
                     try:
                         d.update_components(mapping)
                         raise Violation('C17/wrong-shape-accepted/update_components', 'no error')
-                    except ValueError:
+                    except (ValueError, IncompatibleAttribute, KeyError):
                         outcome = 'rejected'
                         res.probe('rejected_update_wrong_shape')
                         res.fault('rejected_call')
